@@ -3,7 +3,7 @@ import TTV.Model.Conc
 import TTV.Spec.C12
 /-! Driver glue for C12: codecs between S-expressions and `Conc.Input` / `Conc.Trace`.
 
-input  = `(threads sched)`, thread = `(ops faults)`,
+input  = `(threads sched [hints])`, thread = `(ops faults [failfast])`,
 op     = `(time none|(some n))` | `(tags (n…) (n…))` | `(startTest id)` | `(stopTest id)` | `(outcome kind id)`
          | `startTestRun` | `stopTestRun` | `stop` | `done` | `shouldStop`,     id = n | `broken`
 trace  = `(log exc finished)`, event = `(i acq)` | `(i rel)` | `(i call <call> T|F)`,
@@ -76,10 +76,14 @@ def ofEv : Ev → Sexp
 
 def thread? : Sexp → Option Thread
   | .list [ops, faults] => do some { ops := ← list? op? ops, faults := ← list? nat? faults }
+  | .list [ops, faults, ff] => do some { ops := ← list? op? ops, faults := ← list? nat? faults, failfast := ← bool? ff }
   | _ => none
 
 def input? : Sexp → Option Input
   | .list [ts, sched] => do some { threads := ← list? thread? ts, sched := ← list? nat? sched }
+  -- a third component carries *realisation hints* for the harness (shared test objects, empty test id, positional
+  -- arguments, err instead of details, two targets behind one semaphore): they do not change what the model predicts
+  | .list [ts, sched, _hints] => do some { threads := ← list? thread? ts, sched := ← list? nat? sched }
   | _ => none
 
 def trace? : Sexp → Option Trace
